@@ -232,6 +232,16 @@ Theorem C14_to_naive_date_never_panics_modulo_iso :
 Proof. exact to_naive_date_total_modulo_iso. Qed.
 Print Assumptions C14_to_naive_date_never_panics_modulo_iso.
 
+(** ABSENCE OF TRAPS in to_naive_datetime_with_offset (the code with the leap-second repair) for
+    every typed field state and every i32 offset: timestamp arithmetic, the leap-second step one
+    second back, the re-resolution of the completed field set, the unreachable!() arm. *)
+Theorem C14_to_naive_datetime_never_panics_modulo_iso :
+  Fact_iso_week_total -> Fact_isoywd_total -> Fact_isoywd_roundtrip ->
+  forall p off, typed p -> in_i32 off = true ->
+  exists r, to_naive_datetime_with_offset p off = Val r.
+Proof. exact to_naive_datetime_total_modulo_iso. Qed.
+Print Assumptions C14_to_naive_datetime_never_panics_modulo_iso.
+
 Example C14_completeness_hypotheses_inhabited :
   repr 2014 365 (mkdate 2014 365) /\ typed ex_date_fields /\
   group_ok 2014 (p_year ex_date_fields) (p_year_div_100 ex_date_fields) (p_year_mod_100 ex_date_fields) /\
